@@ -188,6 +188,7 @@ def execute(spec):
                 except Exception:
                     pass
             before = sched.calls
+            sched.script_pos = qi  # this draw is handed the qi-th quantile first, whatever earlier draws consumed
             try:
                 v = dist.draw_mw(rng)
             except DrawDiverges as exc:
@@ -207,12 +208,11 @@ def execute(spec):
                     viol("draw_raises", f"draw for quantile {u!r} raised {exc!r}", ef)
                 continue
             used = sched.calls - before
-            if used == 0:
-                # a degenerate (zero-width) law needs no randomness: the script stays aligned by skipping this quantile
-                sched.script_pos += 1
-            elif used != 1:
-                viol("draw_primitive_count", f"one draw consumed {used} random primitives")
-                break
+            multi = used > 1
+            if multi:
+                # a sampler that uses several primitives for one draw (retry, rejection, fallback) is legal; its value is not a
+                # function of one quantile, so it cannot be compared draw by draw -- it still counts for support and mean
+                stats["multi_primitive_draws"] = stats.get("multi_primitive_draws", 0) + 1
             stats["draws"] += 1
             try:
                 fv = float(v)
@@ -226,6 +226,8 @@ def execute(spec):
                 viol("draw_outside_support", f"draw for quantile {u!r} returned {fv}, support is [{lo_s}, {hi_s}]")
                 continue
             values.append((u, fv))
+            if multi:
+                continue
             # the same law as prob_mw reports
             try:
                 if discrete:
